@@ -105,7 +105,12 @@ Allowed(S, s, o) ==
   /\ \A i \in DOMAIN o.ea : LET a == Attr(S, s, o.ea[i].a) IN a # "" /\ a \in Rng(o.ea[i].v)
 
 NoOpts == [ack |-> FALSE, xme |-> "", xl |-> <<>>, el |-> <<>>, hx |-> FALSE, he |-> FALSE,
-           xa |-> <<>>, ea |-> <<>>, dme |-> FALSE]
+           xa |-> <<>>, ea |-> <<>>, dme |-> FALSE, ppt |-> ""]
+
+\* payload passthru mode: the scheme a PUBLISH, CALL or YIELD names in its options travels in the
+\* details of what is delivered - if the sender announced the feature for its role (else it has
+\* violated the protocol) and, for calls, the peer at the other end announced it too
+PptD(o) == IF o.ppt # "" THEN {<<"ppt_scheme", o.ppt>>} ELSE {}
 
 PubIdent(S, p) == {<<"publisher", ToString(SidOf(S, p))>>,
                    <<"publisher_authid", Attr(S, p, "authid")>>,
@@ -126,8 +131,9 @@ PublishFx(S, pubsess, topic, o, pubid, fields, disclose) ==
                  m  |-> [fields EXCEPT !.k = "EVENT", !.a = S.subs[r[2]].id, !.b = pubid,
                             !.u = IF r[2][2] = "exact" THEN <<>> ELSE topic,
                             !.v = topic,
-                            !.d = IF disclose /\ pubsess # "" /\ Has(S, r[1], "subscriber:publisher_identification")
-                                  THEN PubIdent(S, pubsess) ELSE {},
+                            !.d = (IF disclose /\ pubsess # "" /\ Has(S, r[1], "subscriber:publisher_identification")
+                                   THEN PubIdent(S, pubsess) ELSE {})
+                                  \cup (IF pubsess # "" THEN PptD(o) ELSE {}),
                             !.t = S.now]]
       evs    == SetToSeq({ev(r) : r \in recv})
       keep   == {k \in keys : k \in DOMAIN S.hist /\ ~o.hx /\ ~o.he}
@@ -325,16 +331,7 @@ UnsubscribeFx(S, s, req, subid) ==
        IN RemoveMemberFx(S1, s, k, TRUE)
 
 \* x, y: sequence number and sender index carried by the payload tags of burst steps (0 otherwise)
-PublishReqFx2(S, s, req, topic, o, pubid, tag, x, y) ==
-  IF ~ValidURI(S.cfg.strict, "exact", topic)
-  THEN IF o.ack THEN Emit(S, s, ErrorMsg(T_PUBLISH, req, ErrInvalidURI, S)) ELSE S
-  ELSE IF o.dme /\ ~S.cfg.disclose
-  THEN IF o.ack THEN Emit(S, s, ErrorMsg(T_PUBLISH, req, ErrDiscloseMe, S)) ELSE S
-  ELSE LET S1 == PublishFx([S EXCEPT !.used.pub = @ \cup {pubid}], s, topic, o, pubid,
-                           [Base EXCEPT !.p = tag, !.x = x, !.y = y], o.dme)
-       IN IF o.ack THEN Emit(S1, s, [Base EXCEPT !.k = "PUBLISHED", !.req = req, !.a = pubid, !.t = S.now])
-          ELSE S1
-PublishReqFx(S, s, req, topic, o, pubid, tag) == PublishReqFx2(S, s, req, topic, o, pubid, tag, 0, 0)
+\* (PublishReqFx is defined after LeaveFx: a publisher may have to be expelled)
 
 \* --------------------------------------------------------------------------
 \* dealer: registrations
@@ -421,13 +418,15 @@ CanInterrupt(S, callee) == Has(S, callee, "callee:call_canceling")
 \* is continued by further CALLs with the same request id; o.prog = more chunks follow.
 CanPCI(S, x) == Has(S, x, "callee:progressive_call_invocations") /\ CanInterrupt(S, x)
 
-CallFx(S, s, req, proc, o, tag, k, callee, inv) ==
+CallFx0(S, s, req, proc, o, tag, k, callee, inv) ==
   LET c == <<s, req>> IN
   IF BestRegs(S, proc) = {}
   THEN Emit(S, s, ErrorMsg(T_CALL, req, ErrNoSuchProc, S))
   ELSE
     LET r == S.regs[k] IN
     IF o.prog /\ ~CanPCI(S, callee)
+    THEN Emit(S, s, ErrorMsg(T_CALL, req, ErrFeatureNotSupp, S))
+    ELSE IF o.ppt # "" /\ ~Has(S, callee, "callee:payload_passthru_mode")
     THEN Emit(S, s, ErrorMsg(T_CALL, req, ErrFeatureNotSupp, S))
     ELSE IF ~r.disclose /\ o.dme /\ ~S.cfg.disclose
     THEN Emit(S, s, ErrorMsg(T_CALL, req, ErrDiscloseMe, S))
@@ -442,7 +441,7 @@ CallFx(S, s, req, proc, o, tag, k, callee, inv) ==
           more  == IF o.prog THEN {<<"progress", "true">>} ELSE {}
           im    == [Base EXCEPT !.k = "INVOCATION", !.req = inv, !.a = r.id,
                                 !.w = IF k[2] = "exact" THEN <<>> ELSE proc,
-                                !.d = ident \cup rprog \cup tmo \cup more, !.p = tag, !.t = S.now]
+                                !.d = ident \cup rprog \cup tmo \cup more \cup PptD(o), !.p = tag, !.t = S.now]
           S1    == [S EXCEPT !.calls = (c :> [callee |-> callee, inv |-> inv, reg |-> r.id,
                                                canceled |-> FALSE, deadline |-> dl, inprog |-> o.prog, proc |-> proc]) @@ @,
                              !.used.inv[callee] = @ \cup {inv},
@@ -497,7 +496,7 @@ CancelFx(S, s, req, mode) ==
 
 CallsByInv(S, callee, inv) == {c \in DOMAIN S.calls : S.calls[c].callee = callee /\ S.calls[c].inv = inv}
 
-YieldFx(S, s, inv, progress, tag) ==
+YieldFx0(S, s, inv, progress, ppt, tag) ==
   LET cs == CallsByInv(S, s, inv) IN
   IF cs = {}
   THEN IF progress
@@ -505,7 +504,8 @@ YieldFx(S, s, inv, progress, tag) ==
        ELSE S
   ELSE LET c  == CHOOSE cc \in cs : TRUE
            rm == [Base EXCEPT !.k = "RESULT", !.req = c[2], !.p = tag,
-                              !.d = IF progress THEN {<<"progress", "true">>} ELSE {}, !.t = S.now]
+                              !.d = (IF progress THEN {<<"progress", "true">>} ELSE {})
+                                    \cup (IF ppt # "" THEN {<<"ppt_scheme", ppt>>} ELSE {}), !.t = S.now]
        IN IF ~Room(S, c[1])
           THEN \* the one bounded exception of C07: the callee's handler keeps retrying
                \* (after 1, 2, 4, ... ms) until the caller has room or the result-retry
@@ -630,6 +630,42 @@ LeaveFx(S, s, how, reason) ==
                                         !.pd = {<<"authid", Attr(S, s, "authid")>>, <<"authrole", Attr(S, s, "authrole")>>}])
   \* finally the router closes the session's transport
   IN Emit(Sh, s, [Base EXCEPT !.k = "CLOSED", !.t = S.now])
+
+PublishReqFx2(S, s, req, topic, o, pubid, tag, x, y) ==
+  IF ~ValidURI(S.cfg.strict, "exact", topic)
+  THEN IF o.ack THEN Emit(S, s, ErrorMsg(T_PUBLISH, req, ErrInvalidURI, S)) ELSE S
+  ELSE IF o.ppt # "" /\ ~Has(S, s, "publisher:payload_passthru_mode")
+  THEN LeaveFx(S, s, "violation", "")
+  ELSE IF o.dme /\ ~S.cfg.disclose
+  THEN IF o.ack THEN Emit(S, s, ErrorMsg(T_PUBLISH, req, ErrDiscloseMe, S)) ELSE S
+  ELSE LET S1 == PublishFx([S EXCEPT !.used.pub = @ \cup {pubid}], s, topic, o, pubid,
+                           [Base EXCEPT !.p = tag, !.x = x, !.y = y], o.dme)
+       IN IF o.ack THEN Emit(S1, s, [Base EXCEPT !.k = "PUBLISHED", !.req = req, !.a = pubid, !.t = S.now])
+          ELSE S1
+PublishReqFx(S, s, req, topic, o, pubid, tag) == PublishReqFx2(S, s, req, topic, o, pubid, tag, 0, 0)
+
+\* payload passthru mode in calls.  A caller that names a scheme without having announced the
+\* feature has violated the protocol (checked once a callee is chosen and can take the call);
+\* so has a callee whose YIELD does: its call is answered with an error.  A final YIELD with a
+\* scheme for a caller that did not announce the feature cannot be delivered: the call ends with
+\* an error (C02: exactly one final reply), and the callee is told.
+CallFx(S, s, req, proc, o, tag, k, callee, inv) ==
+  IF /\ BestRegs(S, proc) # {} /\ ~(o.prog /\ ~CanPCI(S, callee))
+     /\ o.ppt # "" /\ ~Has(S, s, "caller:payload_passthru_mode")
+  THEN LeaveFx(S, s, "violation", "")
+  ELSE CallFx0(S, s, req, proc, o, tag, k, callee, inv)
+
+YieldFx(S, s, inv, progress, ppt, tag) ==
+  LET cs == CallsByInv(S, s, inv)
+      c  == CHOOSE cc \in cs : TRUE
+  IN IF cs = {} \/ ppt = "" THEN YieldFx0(S, s, inv, progress, "", tag)
+     ELSE IF ~Has(S, s, "callee:payload_passthru_mode")
+     THEN LeaveFx(Emit(DropCall(S, c), c[1], ErrorMsg(T_CALL, c[2], ErrFeatureNotSupp, S)), s, "violation", "")
+     ELSE IF ~Has(S, c[1], "caller:payload_passthru_mode")
+     THEN LET S1 == Emit(S, s, ErrorMsg(T_YIELD, inv, ErrFeatureNotSupp, S))
+          IN IF progress THEN S1
+             ELSE Emit(DropCall(S1, c), c[1], ErrorMsg(T_CALL, c[2], ErrFeatureNotSupp, S))
+     ELSE YieldFx0(S, s, inv, progress, ppt, tag)
 
 \* --------------------------------------------------------------------------
 \* bursts (C07/C08): the programs of several sessions, flattened; the effect of
